@@ -97,6 +97,22 @@ def gen_cfg(rng):
     }
 
 
+def gen_cfg_wide(rng):
+    """maximum-coverage configuration: every retry policy once, and an immediate-retry client (FixedRetry, delay 0) whose
+    requests all time out (backend slower than the timeout) on a steady stream — hundreds of timeout instants, among them
+    instants that do not survive the ns -> float seconds -> ns round trip"""
+    cfg = gen_cfg(rng)
+    clients = [_client_cfg(rng, retry=r) for r in RETRIES]
+    for r in ("fixed0", "fixed"):
+        c = _client_cfg(rng, kind="plain", retry=r)
+        c.update({"timeout_ms": rng.randint(2, 25), "timeout_zero": False, "attempts": rng.choice([3, 4, 6]),
+                  "delay_ms": rng.choice([0.000001, 0.001, 1]), "rate": rng.choice([50, 60, 100]), "poisson": False,
+                  "bursts": []})
+        clients.append(c)
+    cfg.update({"clients": clients, "backend": "gen", "svc_ms": [40, 150], "svc_set_ms": [], "end": rng.choice([3.0, 4.0])})
+    return cfg
+
+
 def _retry(c):
     from happysimulator.components.client import DecorrelatedJitter, ExponentialBackoff, FixedRetry, NoRetry
 
